@@ -186,6 +186,9 @@ pub fn judge(w: &HWorld, start: usize, hist: &[HAct]) -> RT {
         Err((_, "machinery", _)) => RT::NotAccepted,
         Err((i, o, p)) => RT::Viol { oracle: o, what: format!("operation {} ({}) panics: {p}", i + 1, act_name(&hist[i])) },
         Ok(f) => {
+            if let Err(w) = crate::c08::index_coherent(&f) {
+                return RT::Viol { oracle: "name-index-incoherent", what: w };
+            }
             if order_defined(hist) {
                 roundtrip_model(&f)
             } else {
